@@ -57,6 +57,157 @@ theorem reopen_append (rs new : List Rec) (hfit : ∀ r ∈ rs, r.fits) (hnew : 
     · exact hfit x h
     · exact hnew x h)
 
+/-! ### Every history of invocations and crashes -/
+
+/-- One invocation as the log file sees it: the records whose append completed, then possibly the
+    record during whose append the process died (with the number of bytes that reached the file);
+    `sigCut`: if the signature had to be (re)written and the process died after `k < 8` bytes of
+    it (nothing else is written then). -/
+structure Inv1 where
+  new : List Rec
+  torn : Option (Rec × Nat)
+  sigCut : Option Nat
+
+def tornBytes : Option (Rec × Nat) → Bytes
+  | none => []
+  | some (r, k) => (encode r).take k
+
+def Inv1.WF (i : Inv1) : Prop :=
+  (∀ r ∈ i.new, r.fits) ∧ (∀ r k, i.torn = some (r, k) → r.fits ∧ k < (encode r).length) ∧
+  (∀ k, i.sigCut = some k → k < 8)
+
+/-- `db::open` + the appends of one invocation: read the file, keep its intact prefix (write a
+    fresh signature if there is none), append.  `none`: the file is refused (foreign signature or
+    version). -/
+def runInv (file : Bytes) (i : Inv1) : Option Bytes :=
+  match parse file with
+  | .ok _ n => some (file.take n ++ i.new.flatMap encode ++ tornBytes i.torn)
+  | .empty =>
+    match i.sigCut with
+    | some k => some (signature.take k)
+    | none => some (signature ++ i.new.flatMap encode ++ tornBytes i.torn)
+  | _ => none
+
+def runInvs : Bytes → List Inv1 → Option Bytes
+  | file, [] => some file
+  | file, i :: is => match runInv file i with
+    | some f' => runInvs f' is
+    | none => none
+
+/-- The records whose append completed, over a history (an invocation that died inside the
+    signature appended nothing). -/
+def completed : Bytes → List Inv1 → List Rec
+  | _, [] => []
+  | file, i :: is =>
+    match parse file, i.sigCut with
+    | .empty, some k => completed (signature.take k) is
+    | .empty, none => i.new ++ completed (signature ++ i.new.flatMap encode ++ tornBytes i.torn) is
+    | .ok _ n, _ => i.new ++ completed (file.take n ++ i.new.flatMap encode ++ tornBytes i.torn) is
+    | _, _ => []
+
+/-- The shapes a log file can have: complete records followed by a strict prefix of one more
+    record, or (nothing completed yet) a strict prefix of the signature. -/
+def LogShape (file : Bytes) (rs : List Rec) : Prop :=
+  ((∀ r ∈ rs, r.fits) ∧ ∃ t, file = encodeLog rs ++ tornBytes t ∧ ∀ r k, t = some (r, k) → r.fits ∧ k < (encode r).length) ∨
+  (rs = [] ∧ ∃ k, k < 8 ∧ file = signature.take k)
+
+theorem shape_parse (file : Bytes) (rs : List Rec) (h : LogShape file rs) :
+    parse file = .ok rs (encodeLog rs).length ∨ (rs = [] ∧ parse file = .empty) := by
+  rcases h with ⟨hfit, t, hf, ht⟩ | ⟨hrs, k, hk, hf⟩
+  · left
+    rw [hf]
+    cases t with
+    | none => simpa [tornBytes] using complete rs hfit
+    | some p =>
+      obtain ⟨r, k⟩ := p
+      obtain ⟨h1, h2⟩ := ht r k rfl
+      exact every_prefix rs hfit r h1 k h2
+  · right
+    rw [hf]
+    exact ⟨hrs, torn_signature ⟨k, hk⟩⟩
+
+/-- One invocation keeps the shape and adds exactly the records it completed. -/
+theorem runInv_shape (file : Bytes) (rs : List Rec) (h : LogShape file rs) (i : Inv1) (hw : i.WF) :
+    ∃ file', runInv file i = some file' ∧
+      ((∃ k, parse file = .empty ∧ i.sigCut = some k ∧ LogShape file' rs) ∨
+       ((parse file ≠ .empty ∨ i.sigCut = none) ∧ LogShape file' (rs ++ i.new))) := by
+  obtain ⟨hnew, htorn, hsig⟩ := hw
+  have happ : ∀ (base : List Rec), (∀ r ∈ base, r.fits) →
+      LogShape (encodeLog base ++ i.new.flatMap encode ++ tornBytes i.torn) (base ++ i.new) := by
+    intro base hb
+    left
+    refine ⟨fun r hr => by rcases List.mem_append.mp hr with h | h; exact hb r h; exact hnew r h, i.torn, ?_, htorn⟩
+    simp [encodeLog, List.flatMap_append, List.append_assoc]
+  rcases shape_parse file rs h with hp | ⟨hrs, hp⟩
+  · -- an intact (possibly torn-tailed) log: truncate to the complete records, append
+    have hfit : ∀ r ∈ rs, r.fits := by
+      rcases h with ⟨hfit, _⟩ | ⟨hrs, k, hk, hf⟩
+      · exact hfit
+      · intro r hr; rw [hrs] at hr; cases hr
+    have htake : file.take (encodeLog rs).length = encodeLog rs := by
+      rcases h with ⟨_, t, hf, _⟩ | ⟨hrs, k, hk, hf⟩
+      · rw [hf]; exact List.take_left' rfl
+      · -- impossible: a strict prefix of the signature does not parse as a log
+        rw [hf, torn_signature ⟨k, hk⟩] at hp; cases hp
+    refine ⟨encodeLog rs ++ i.new.flatMap encode ++ tornBytes i.torn, ?_, Or.inr ⟨Or.inl (by rw [hp]; simp), happ rs hfit⟩⟩
+    unfold runInv; rw [hp]; simp only [htake]
+  · subst hrs
+    cases hs : i.sigCut with
+    | some k =>
+      refine ⟨signature.take k, by unfold runInv; rw [hp, hs], Or.inl ⟨k, hp, rfl, Or.inr ⟨rfl, k, hsig k hs, rfl⟩⟩⟩
+    | none =>
+      refine ⟨signature ++ i.new.flatMap encode ++ tornBytes i.torn, by unfold runInv; rw [hp, hs],
+        Or.inr ⟨Or.inr rfl, ?_⟩⟩
+      have := happ [] (fun r hr => by cases hr)
+      simpa [encodeLog] using this
+
+/-- **The log survives every history of invocations and crashes.**  Starting from no file, after
+    ANY sequence of invocations — each appending any records that fit the format, each possibly
+    dying after any number of bytes of a record (or of the signature) — the file is never refused,
+    has the shape "complete records + strict prefix of one more" and the next start-up loads
+    exactly the records whose append completed, in order (`completed`), nothing else. -/
+theorem survives_every_history (is : List Inv1) (hw : ∀ i ∈ is, i.WF) :
+    ∀ (file : Bytes) (rs : List Rec), LogShape file rs →
+    ∃ file', runInvs file is = some file' ∧ LogShape file' (rs ++ completed file is) ∧
+      (parse file' = .ok (rs ++ completed file is) (encodeLog (rs ++ completed file is)).length ∨
+       (rs ++ completed file is = [] ∧ parse file' = .empty)) := by
+  induction is with
+  | nil =>
+    intro file rs h
+    refine ⟨file, rfl, by simpa [completed] using h, ?_⟩
+    simpa [completed] using shape_parse file rs h
+  | cons i is ih =>
+    intro file rs h
+    obtain ⟨f1, hr1, hcase⟩ := runInv_shape file rs h i (hw i (by simp))
+    have hwis : ∀ x ∈ is, x.WF := fun x hx => hw x (by simp [hx])
+    rcases hcase with ⟨k, hp, hs, hsh⟩ | ⟨hne, hsh⟩
+    · obtain ⟨f2, hr2, hs2, hp2⟩ := ih hwis f1 rs hsh
+      have hf1 : f1 = signature.take k := by
+        unfold runInv at hr1; rw [hp, hs] at hr1; exact (Option.some.inj hr1).symm
+      have hc : completed file (i :: is) = completed f1 is := by
+        simp only [completed, hp, hs, hf1]
+      refine ⟨f2, by simp only [runInvs, hr1]; exact hr2, by rw [hc]; exact hs2, by rw [hc]; exact hp2⟩
+    · obtain ⟨f2, hr2, hs2, hp2⟩ := ih hwis f1 (rs ++ i.new) hsh
+      have hc : rs ++ completed file (i :: is) = (rs ++ i.new) ++ completed f1 is := by
+        rcases shape_parse file rs h with hp | ⟨hrs, hp⟩
+        · have hf1 : f1 = file.take (encodeLog rs).length ++ i.new.flatMap encode ++ tornBytes i.torn := by
+            unfold runInv at hr1; rw [hp] at hr1; exact (Option.some.inj hr1).symm
+          simp only [completed, hp, hf1, List.append_assoc]
+        · rcases hne with hne | hne
+          · exact absurd hp hne
+          · have hf1 : f1 = signature ++ i.new.flatMap encode ++ tornBytes i.torn := by
+              unfold runInv at hr1; rw [hp, hne] at hr1; exact (Option.some.inj hr1).symm
+            simp only [completed, hp, hne, hf1, List.append_assoc]
+      refine ⟨f2, by simp only [runInvs, hr1]; exact hr2, by rw [hc]; exact hs2, by rw [hc]; exact hp2⟩
+
+/-- From no file at all. -/
+theorem survives_from_scratch (is : List Inv1) (hw : ∀ i ∈ is, i.WF) :
+    ∃ file', runInvs [] is = some file' ∧
+      (parse file' = .ok (completed [] is) (encodeLog (completed [] is)).length ∨
+       (completed [] is = [] ∧ parse file' = .empty)) := by
+  obtain ⟨f, h1, _, h3⟩ := survives_every_history is hw [] [] (Or.inr ⟨rfl, 0, by decide, rfl⟩)
+  exact ⟨f, h1, by simpa using h3⟩
+
 /-- Non-vacuity: a concrete two-record log cut in the middle of its build record. -/
 example : parse (encodeLog [.path [97], .build [0] [] 7] |>.take 14) = .ok [.path [97]] 11 := by decide
 
